@@ -5,3 +5,4 @@ pub mod yaml_corpus;
 pub mod utf8;
 pub mod dsv;
 pub mod yamlpos;
+pub mod yaml;
